@@ -101,33 +101,41 @@ def compilePred (s : SNode) : Pred → Except Err CPred
   | .pos raw =>
     if (s.kind.isList || s.kind.isLeaflist) && !s.kind.cfgW then .ok (.pos (posValue raw)) else .error .invalid
 
+/-- "Predicate missing for list" before going below a list segment without a predicate (`LY_PATH_TARGET_SINGLE`) -/
+def prevBad (single : Bool) : Option CStep → Bool
+  | some p => single && p.kind.isList && p.pred == .none
+  | Option.none => false
+
+/-- "Predicate missing" on the last segment: a list or leaf-list without a predicate (`LY_PATH_TARGET_SINGLE`) -/
+def lastBad (single : Bool) : Option CStep → Bool
+  | some p => single && (p.kind.isList || p.kind.isLeaflist) && p.pred == .none
+  | Option.none => false
+
+/-- module of a segment: its prefix (a module name, `LY_VALUE_JSON`) or, without one, the module of the previous segment -/
+def stepModule (pfx pmod : Option Bytes) : Option Bytes :=
+  match pfx with
+  | some p => some p
+  | Option.none => pmod
+
 /-- the `do … while ('/')` loop of `_ly_path_compile` (`lref = 0`, `LY_VALUE_JSON`); `single` =
     `LY_PATH_TARGET_SINGLE`; `prev` = the segment compiled last -/
 def compileSteps (single : Bool) : List SNode → Option Bytes → Option CStep → List Step → Except Err (List CStep)
-  | _, _, prev, [] =>
-    match prev with
-    | some p => if single && (p.kind.isList || p.kind.isLeaflist) && p.pred == .none then .error .invalid else .ok []
-    | Option.none => .ok []
+  | _, _, prev, [] => if lastBad single prev then .error .invalid else .ok []
   | cur, pmod, prev, st :: rest =>
-    let prevBad : Bool := match prev with
-      | some p => single && p.kind.isList && p.pred == .none
-      | Option.none => false
-    if prevBad then .error .invalid
+    if prevBad single prev then .error .invalid
     else
-      let (pfx, ln) := splitName st.name
-      match (match pfx with | some p => some p | Option.none => pmod) with
+      match stepModule (splitName st.name).1 pmod with
       | Option.none => .error .invalid
       | some m =>
-        match findSchema cur m ln with
+        match findSchema cur m (splitName st.name).2 with
         | Option.none => .error .invalid
         | some s =>
           match compilePred s st.pred with
           | .error e => .error e
           | .ok cp =>
-            let c : CStep := ⟨s.mod, s.name, s.kind, schemaKeys s, cp⟩
-            match compileSteps single s.children (some s.mod) (some c) rest with
+            match compileSteps single s.children (some s.mod) (some ⟨s.mod, s.name, s.kind, schemaKeys s, cp⟩) rest with
             | .error e => .error e
-            | .ok cs => .ok (c :: cs)
+            | .ok cs => .ok (⟨s.mod, s.name, s.kind, schemaKeys s, cp⟩ :: cs)
 
 /-- parse + compile an absolute path -/
 def compilePath (schema : List SNode) (single : Bool) (path : Bytes) : Except Err (List CStep) :=
@@ -144,17 +152,27 @@ def CStep.sameSchema (c : CStep) (n : DNode) : Bool := n.mod == c.mod && n.name 
 def keyValue (n : DNode) (k : Bytes) : Option Bytes :=
   ((keyLeaves n.children).find? (fun c => c.name == k)).map (·.value)
 
+/-- index of the first sibling satisfying `p` (`lyd_find_sibling_*`: the first instance) -/
+def firstIdx (p : DNode → Bool) : List DNode → Option Nat
+  | [] => Option.none
+  | x :: r =>
+    if p x then some 0
+    else
+      match firstIdx p r with
+      | Option.none => Option.none
+      | some i => some (i + 1)
+
 /-- one segment of `ly_path_eval_partial`: index of the matching sibling -/
 def matchStep (sibs : List DNode) (c : CStep) : Option Nat :=
   match c.pred with
   | .pos p =>
     -- LYD_LIST_FOR_INST from the first instance, counting from 1
-    match sibs.findIdx? c.sameSchema with
+    match firstIdx c.sameSchema sibs with
     | Option.none => Option.none
     | some j => if p ≥ 1 && p - 1 < ((sibs.drop j).takeWhile c.sameSchema).length then some (j + (p - 1)) else Option.none
-  | .dot v => sibs.findIdx? (fun n => c.sameSchema n && n.value == v)
-  | .keys kv => sibs.findIdx? (fun n => c.sameSchema n && kv.all (fun (k, v) => keyValue n k == some v))
-  | .none => sibs.findIdx? c.sameSchema
+  | .dot v => firstIdx (fun n => c.sameSchema n && n.value == v) sibs
+  | .keys kv => firstIdx (fun n => c.sameSchema n && kv.all (fun (k, v) => keyValue n k == some v)) sibs
+  | .none => firstIdx c.sameSchema sibs
 
 /-- walk the segments; result: address of the deepest match and the number of matched segments -/
 def evalSteps : Forest → List CStep → Addr × Nat
@@ -216,6 +234,13 @@ def checkFind (v : Bytes) : Nat → List CStep → Except Err (List CStep × Opt
         -- the last duplicate-instance segment wins (`new_count = u` is overwritten while looping)
         .ok (c' :: cs, match cut with | some k => some k | Option.none => if create then some u else Option.none)
 
+/-- what is hung below a freshly created list besides its keys: the rest of the chain — unless that is a key leaf, which
+    is not created again (`lyd_find_sibling_schema` finds the one `lyd_create_list` just made) -/
+def extraChild (sub : Option DNode) : List DNode :=
+  match sub with
+  | some s => if s.isKeyLeaf then [] else [s]
+  | Option.none => []
+
 /-- the node `lyd_create_*` makes for one segment, with `sub` (the rest of the created chain) below it -/
 def createNode (v : Bytes) (c : CStep) (sub : Option DNode) : DNode :=
   match c.kind with
@@ -223,11 +248,7 @@ def createNode (v : Bytes) (c : CStep) (sub : Option DNode) : DNode :=
     let kv := match c.pred with | .keys kv => kv | _ => []
     -- lyd_create_list: one key leaf per predicate, inserted in schema order
     let keys := c.keyNames.filterMap (fun k => (kv.find? (fun p => p.1 == k)).map (fun p => DNode.mk c.mod k (.leaf true) p.2 []))
-    -- a key leaf as the next segment is not created again (`lyd_find_sibling_schema` finds the one just made)
-    let extra := match sub with
-      | some s => if s.isKeyLeaf then [] else [s]
-      | Option.none => []
-    .mk c.mod c.name c.kind [] (keys ++ extra)
+    .mk c.mod c.name c.kind [] (keys ++ extraChild sub)
   | .leaflist _ =>
     let val := match c.pred with | .dot pv => pv | _ => v
     .mk c.mod c.name c.kind val []
@@ -240,7 +261,7 @@ def createChain (v : Bytes) : List CStep → Option DNode
 
 /-- number of instances among `sibs` (`LYD_LIST_FOR_INST` count) -/
 def instCount (sibs : List DNode) (c : CStep) : Nat :=
-  match sibs.findIdx? c.sameSchema with
+  match firstIdx c.sameSchema sibs with
   | Option.none => 0
   | some j => ((sibs.drop j).takeWhile c.sameSchema).length
 
@@ -250,6 +271,15 @@ def childrenAt (f : Forest) : Addr → List DNode
     match f[i]? with
     | Option.none => []
     | some n => childrenAt n.children rest
+
+/-- "Cannot create … on position N": the first segment to be created is a duplicate-instance node addressed by a
+    position more than one above the number of existing instances -/
+def posBad (sibs : List DNode) : List CStep → Bool
+  | c :: _ =>
+    match c.pred with
+    | .pos p => c.kind.dupInst && decide (instCount sibs c + 1 < p)
+    | _ => false
+  | [] => false
 
 /-- result of a successful `lyd_new_path2`: where the new chain was attached (address of the deepest existing node
     of the path, `[]` = top level) and the created chain (`new_parent` with everything below it) -/
@@ -274,13 +304,7 @@ def newPath (schema : List SNode) (f : Forest) (path : Bytes) (v : Bytes) : Exce
       else
         let todo := cs.drop k
         let sibs := childrenAt f a
-        let posBad : Bool := match todo with
-          | c :: _ =>
-            (match c.pred with
-             | .pos p => c.kind.dupInst && instCount sibs c + 1 < p
-             | _ => false)
-          | [] => false
-        if posBad then .error .einval
+        if posBad sibs todo then .error .einval
         else
           match createChain v todo with
           | Option.none => .error .unsupported
